@@ -1320,8 +1320,8 @@ func TestVerifC03(t *testing.T) {
 	rep := vx.NewReport("C03", "model_checking")
 	rep.Rule = "part A: every byte string (per-byte alphabet {0..w-1}; full 0..255 for k=1) of bounded length that NewSamplingResult can consume from " +
 		"crypto/rand.Reader, one execution per string, distinct = distinct resulting coordinate sets; part B: explicit-state BFS over event histories of the real " +
-		"light.ShareAvailability (events: call(height)[+deadline], getter answer = every subset of the requested coordinates served | nil slice, each with " +
-		"no error / error / error wrapping context.Canceled / the real ctx error, cancel(call), clock advance, restart = Close + fresh instance over the same " +
+		"light.ShareAvailability, frontier run until empty within the call/restart bounds (events: call(height)[+deadline], getter answer = every subset of the requested coordinates served | nil slice, each with " +
+		"no error / error / error wrapping context.Canceled / the real ctx error, cancel(session holder | queued call), clock advance, restart = Close + fresh instance over the same " +
 		"datastore, crash = fresh instance without Close); a state is distinct and non-trivial when its canonical fingerprint (per block: first drawn set, " +
 		"verified set, persisted record as seen by the instance and on disk; in-flight calls with their getter request and context state; counters) was not seen before"
 	rep.Assumptions = []string{
@@ -1331,7 +1331,8 @@ func TestVerifC03(t *testing.T) {
 		"a graceful restart happens with no call in flight and calls Close; a crash may happen at any time and loses whatever the instance only buffered",
 		"datastore operations do not fail; two different heights never carry the same data root",
 		"the package variable writeBatchSize (autobatch buffer capacity, 2048) is set to 16 for speed; no explored history buffers more than 2 keys, so no flush is triggered by size either way",
-		"Sessions interleavings finer than one getter call (sync.Map granularity) are not explored here",
+		"Sessions interleavings finer than one getter call (sync.Map granularity) are not explored here; which of several queued same-height calls obtains the session next is a scheduler decision, so queued calls are kept interchangeable (calls with deadlines: at most one queued per height) and events name calls by height and role",
+		"a request that asks for coordinates outside the first drawn set is a violation only while some coordinate of that set is still unretrieved (sampling a fully verified block again replaces no pending coordinate)",
 	}
 
 	if rp := os.Getenv("VERIF_REPLAY"); rp != "" {
